@@ -15,9 +15,6 @@ import json, os, re, collections, concurrent.futures, time
 import vf
 
 SPECDIR = os.path.join(vf.SPEC, "field")
-# On a loaded many-core machine the default number of parallel GC / JIT threads makes a single-worker
-# TLC run several times slower; two of each is plenty for trace validation.
-JAVA_OPTS = "-XX:ParallelGCThreads=2 -XX:CICompilerCount=2"
 
 META = dict(
     technique="TLC trace validation (TraceFieldOps.tla, BigNat witness checking) of operations recorded from the real field code under a watchdog; plus TLC-exhaustive word-size-scaled models of the f64/f62 routines (design level)",
@@ -159,7 +156,7 @@ def weight(e):
 
 def _validate_chunk(arg):
     module, cfg, path, timeout = arg
-    r = vf.tlc(module, cfg, cwd=SPECDIR, workers=1, timeout=timeout, env={"TRACE": path, "_JAVA_OPTIONS": JAVA_OPTS}, deque=True, heap="3g")
+    r = vf.tlc(module, cfg, cwd=SPECDIR, workers=1, timeout=timeout, env={"TRACE": path}, deque=True, heap="3g")
     rej = [int(m.group(1)) for m in (re.match(r'^<<"REJECTED_EVENT", (\d+)>>', ln) for ln in r.prints) if m]
     consumed = [int(m.group(1)) for m in (re.match(r'^<<"CONSUMED", (\d+)>>', ln) for ln in r.prints) if m]
     return rej, consumed, r.distinct, r.generated, r.wall, r.ok, r.error
